@@ -82,7 +82,10 @@ def run(rep, tier):
             rep.functions += 1
             explore(rep, m, f, fail, group)
         if group == "asconcrypt":
-            rule_format(rep, m)
+            # the reader's header test may live in a file-local helper: judge encrypt_file / decrypt_file with their
+            # helpers inlined
+            lri = repo.lower(build, group=group, level="O0", inline_internal=True)
+            rule_format(rep, ir.Module.load(lri.json))
         rule_loop_state(rep, m, group, build)
     rep.floor("C19.D1", 25)
     rep.floor("C19.D2", 15)
